@@ -559,3 +559,9 @@ def write_existence_test(ctx):
 @rule("C15.R8", "a write is refused as unknownProperty only for a property that does not exist, never because its current value is false", floor=1, engines="E5")
 def r8(ctx):
     write_existence_test(ctx)
+
+
+@rule("C15.R9", "a commanded value reads back: the present value of a commandable object is the value in the lowest-numbered non-null slot, whatever its truth value (0, 0.0, inactive are values)", floor=3, engines="E1 (shared with C17.R2)")
+def r9(ctx):
+    from . import c17
+    c17.r2(ctx)
